@@ -64,7 +64,7 @@ def stripSub (u : Sub) : Sub :=
   | _ => { u with delivered := [], joinedAt := 0, missed := false }
 
 def strip (s : Batcher.State) : Batcher.State :=
-  { s with p := { s.p with log := [] }, out := [], calls := [], subs := s.subs.map stripSub }
+  { s with p := { s.p with log := [], readAt := 0, armAt := 0 }, out := [], calls := [], subs := s.subs.map stripSub }
 
 def hiddenOK (d : D) : Batcher.Label → Bool
   | .closeReturn => false
